@@ -153,6 +153,10 @@ func main() {
 		json.NewEncoder(sf).Encode(g.stat)
 		sf.Close()
 		fmt.Fprintf(os.Stderr, "harness: %s: %d ops\n", name, n)
+	case "concsolo":
+		var seed int64
+		fmt.Sscan(os.Args[2], &seed)
+		fmt.Println(concWorkload(seed))
 	case "exec":
 		fs := flag.NewFlagSet("exec", flag.ExitOnError)
 		in := fs.String("in", "", "ops file")
